@@ -123,6 +123,7 @@ func NewExplorer(prog *ssa.Program, h *ssa.Function) *Explorer {
 	registerSnapshots(ex)
 	registerSigModel(ex)
 	registerHashModel(ex)
+	registerJSONDoc(ex)
 	registerGradingModel(ex)
 	registerRegexModel(ex)
 	registerCtxModel(ex)
